@@ -450,10 +450,16 @@ func convToBasicNumber(source interface{}, target reflect.Type) (interface{}, er
 		case reflect.Int16:
 			return int16(f), nil
 		case reflect.Int:
+			if i, ok := v.Int64(); ok {
+				return int(i), nil
+			}
 			return int(f), nil
 		case reflect.Int32:
 			return int32(f), nil
 		case reflect.Int64:
+			if i, ok := v.Int64(); ok {
+				return i, nil
+			}
 			return int64(f), nil
 		case reflect.Float32:
 			return float32(f), nil
